@@ -1,4 +1,6 @@
 import OmbottModel.Py
 import OmbottModel.Model.Stream
 import OmbottModel.Model.Range
+import OmbottModel.Model.Multipart
+import OmbottModel.Model.MultipartSpec
 import OmbottModel.Drv.All
